@@ -73,6 +73,27 @@ def pty_sessions(ctx):
     cov = {"pty_sessions": len(sessions), "pty_bytes_written": meta.get("bytes_written", 0),
            "pty_polls_returning_with_output_pending": meta.get("polls_returning_with_output_pending", 0),
            "pty_drops_discarding_frames": meta.get("drops_discarding_frames", 0)}
+    # the branches of the write step that only a fault script reaches, and the drop that finds the chunk in flight
+    # partly sent, must have been exercised: a run that did not reach them proves nothing about them
+    required = ["forced_short_writes", "forced_zero_byte_writes", "forced_eagain", "forced_eintr",
+                "drops_with_front_chunk_partly_sent", "polls_returning_with_output_pending", "image_bytes"]
+    for k in required:
+        cov["pty_" + k] = meta.get(k, 0)
+    if not ctx.get("replay"):
+        missing = [k for k in required if not meta.get(k, 0)]
+        # same for the queue histories: drops that find the front chunk partly consumed, big chunks drained in pieces
+        try:
+            dist = json.load(open(os.path.join(ctx["build"], "cases", "C16", "meta.json"))).get("distribution", {})
+            for tag in ("drop_with_front_partly_consumed=true", "big.partial_takes_in_chunk_over_64K=>=10", "max_chunks=>32"):
+                cov["queue_" + tag] = dist.get(tag, 0)
+                if not dist.get(tag, 0):
+                    missing.append("queue histories with " + tag)
+        except OSError:
+            pass
+        if missing:
+            violations.append({"kind": "broken-correspondence",
+                               "what": "the pty sessions did not reach: %s (fault script hook of Tty::write not effective, or generator changed)" % ", ".join(missing),
+                               "case": {"pty_counters": {k: meta.get(k, 0) for k in required}}})
     return {"violations": violations, "coverage": cov, "notes": notes}
 
 
@@ -95,7 +116,9 @@ PROP = {'gen': [],
                'write/flush/read/consume/consume_with/drop/read_to_end calls and every program of write/execute/flush/poll/frames_drop '
                'under every schedule, no panic (bar usize overflow of a caller-supplied consume amount), representation invariant, '
                'delivered ++ pending = written minus discarded chunks in order (erasure relation), len() = bytes readable to exhaustion, '
-               'discarded chunks are whole flush-delimited frames none of whose bytes is ever delivered. Models tied to the code by '
+               'discarded chunks are whole frames none of whose bytes is ever delivered (frames delimited by flush/poll/drop in general, by flush/poll '
+               'only for programs that drop right after a flush or poll, e.g. the render loop); progress under accepting rounds; the '
+               'specification side accepts every model history. Models tied to the code by '
                'histories on the real IOQueue (incl. 64 KiB..1 MiB chunks) and by pty sessions of the real SystemTerminal.',
  'level_note': 'Trusted: Coq kernel + vm_compute; hand-written models IO/IOQueue.v, IO/TermIO.v validated by the correspondence runs; '
                'IO/FifoSpec.v / match_frames as the reading of the property text; kernel behaviour universally quantified, sampled by '
@@ -117,6 +140,10 @@ PROP = {'gen': [],
                   HARNESS + '; pty peer thread (harness/src/ptyutil.rs)'],
  'assumptions': ['fewer than 2^64 bytes are written in one history (so `length += n` cannot overflow and chunk lengths fit usize)',
                  'consume amounts passed by callers fit usize when added to the queue size (BufRead contract: amt <= bytes shown); otherwise the '
-                 'only possible panic is the overflow of `offset + amt`',
+                 'only possible panic is the overflow of `offset + amt` (debug build; a release build wraps instead and corrupts length/offset: '
+                 'out of contract either way)',
                  'the tty accepts a prefix of the slice it is given (write(2) contract); which prefix, and when, is arbitrary',
-                 'a frame is delimited by flush, poll and frames_drop calls']}
+                 'a frame is delimited by flush, poll and frames_drop calls (C16_frames); by flush and poll only when nothing is handed over '
+                 'between the last flush/poll and a drop (C16_frames_flush_delimited)',
+                 'delivery theorems speak about bytes the kernel accepted; a peer that never reads gets nothing (C16_progress needs accepting rounds); '
+                 'the tee (duplicate_output) is not modelled']}
